@@ -732,6 +732,8 @@ fn check_max_directives(doc: &ExecutableDocument, max_directives: usize) -> Serv
         limit_directives: usize,
     ) -> ServerResult<()> {
         for selection in &selection_set.node.items {
+            #[cfg(async_graphql_verif)]
+            crate::verif_hooks::count("check_max_directives");
             match &selection.node {
                 Selection::Field(field) => {
                     if field.node.directives.len() > limit_directives {
@@ -790,6 +792,8 @@ fn check_recursive_depth(doc: &ExecutableDocument, max_depth: usize) -> ServerRe
         }
 
         for selection in &selection_set.node.items {
+            #[cfg(async_graphql_verif)]
+            crate::verif_hooks::count("check_recursive_depth");
             match &selection.node {
                 Selection::Field(field) => {
                     if !field.node.selection_set.node.items.is_empty() {
